@@ -136,7 +136,12 @@ func verifC06Step() {
 	g := gs[0]
 	a0, c0 := g.AcknowledgedSeq(), g.ConsumedSeq()
 	qa0 := fq.Queue().AcknowledgedSeq()
-	switch verifChoose("op", 7) {
+	switch verifChoose("op", 8) {
+	case 7: // set the consumed position (re-consume from an earlier point, or skip ahead)
+		x := verifRange("setConsumed", -1, 200000)
+		verifAssume(x >= a0 && x <= appended)
+		g.SetConsumedSeq(x)
+		verifAssert(g.ConsumedSeq() == x && g.AcknowledgedSeq() == a0, "set-consumed moves consumed only")
 	case 0: // consume
 		s := g.consume()
 		if c0 < appended {
@@ -203,7 +208,18 @@ func verifC06Step() {
 	}
 	verifQueueInvariant(fq, "step")
 	verifAssert(fq.Queue().AcknowledgedSeq() >= qa0, "queue acknowledged position is monotone")
+	// all positions survive close and reopen
+	gc1, ga1 := g.ConsumedSeq(), g.AcknowledgedSeq()
+	qa1, qp1 := fq.Queue().AcknowledgedSeq(), fq.Queue().AppendedSeq()
 	fq.Close()
+	fq2, err := NewFanOutQueue(dir, 0)
+	verifAssert(err == nil, "reopen after the step succeeds")
+	if err == nil {
+		verifAssert(fq2.Queue().AcknowledgedSeq() == qa1 && fq2.Queue().AppendedSeq() == qp1, "the queue's positions survive close and reopen")
+		g2, _ := fq2.GetOrCreateConsumerGroup(names[0])
+		verifAssert(g2.ConsumedSeq() == gc1 && g2.AcknowledgedSeq() == ga1, "the group's positions survive close and reopen")
+		fq2.Close()
+	}
 	verifReach("end")
 }
 
